@@ -64,19 +64,19 @@ func (sw *slidingWindow) cleaner() {
 		case <-ticker.C:
 			sw.mutex.Lock()
 			newstartidx := 0
+			now := time.Now()
 			for idx, val := range sw.samples {
-				if val.expires.Before(time.Now()) {
+				if val.expires.Before(now) {
 					newstartidx = idx + 1
 				} else {
 					break
 				}
-				if len(sw.samples) > newstartidx {
-					newsamples := make([]sample, len(sw.samples)-newstartidx)
-					copy(sw.samples[newstartidx:], newsamples)
-					sw.samples = newsamples
-				} else {
-					sw.samples = make([]sample, 0)
-				}
+			}
+			if newstartidx > 0 {
+				// drop the expired prefix, keep the live samples as they are
+				newsamples := make([]sample, len(sw.samples)-newstartidx)
+				copy(newsamples, sw.samples[newstartidx:])
+				sw.samples = newsamples
 			}
 			sw.mutex.Unlock()
 
